@@ -20,6 +20,8 @@ NEAR_MISS_NAMES = [
     "j", "J", "d", "b", "c", "beta_1", "w", "v", "u", "lam", "re", "im", "oo", "zoo", "nan", "li", "Si", "Ci", "gamma_", "ff",
     # names the package uses itself for the fields of an operation, a graph node or a program
     "modes", "args", "kwargs", "op", "options", "idx", "parameters", "variables", "func", "regrefs", "expr",
+    # names an implementation may use for its own placeholders and temporaries
+    "rhs", "lhs", "val", "res", "tmp", "var", "sol", "_x", "x0", "symbol", "value", "result", "self", "dummy", "Dummy", "xi", "_",
     # look like p-names to a lenient reader
     "p1_0", "p10_2", "p0_0", "p1_",
 ]
